@@ -23,6 +23,17 @@ CHECKS = {
              "velocity variant. The algorithm itself is a TLA+ state machine (greedy + phases) model-checked for all "
              "graphs. Matchings recorded from larger random runs of the metric functions are certified in TLC.",
         ref="4/C05"),
+    "C13": dict(
+        technique="TLA+ semantic spec of interval pre-processing (Intervals.tla); TLC generates every bounded input, "
+                  "the code's results are judged by a TLA+ trace spec (Trace_C13)",
+        text="Six TLC generators enumerate every time-ordered labelled interval list (<=3 intervals on a 7-point "
+             "lattice, gaps allowed) with every t_min/t_max (each coincidence with a boundary, inside, beyond), all "
+             "pairs of contiguous segmentations, sample grids and event lists; TLC checks that the constructive reading "
+             "of the documentation satisfies the semantic verdict; each input is run on the real function and the "
+             "result is judged in TLC (positive durations, begins/ends at the range, label of every instant preserved, "
+             "duration conserved, later interval at shared boundaries). Larger random annotations and the adjust/merge "
+             "calls recorded inside segment/chord.evaluate are judged the same way.",
+        ref="4/C13"),
 }
 
 PENDING = "check not built yet (build in progress; see DESIGN.md section 10)"
